@@ -221,10 +221,12 @@ func H04_WideHeaders() {
 		enc = append([]byte{}, w.Bytes()...)
 		dec = func(r *bytes.Reader) { _, _ = GetAdministrativeRecordManager().ReadAdministrativeRecord(r) }
 	case 5:
-		enc = encOf(NewDTLSRBlock(DTLSRPeerData{ID: a, Timestamp: 5, Peers: map[EndpointID]DtnTime{a: 0, b: 7}}))
+		enc = encOrdered(func() []byte {
+			return encOf(NewDTLSRBlock(DTLSRPeerData{ID: a, Timestamp: 5, Peers: map[EndpointID]DtnTime{a: 0, b: 7}}))
+		})
 		dec = func(r *bytes.Reader) { var x DTLSRBlock; _ = x.UnmarshalCbor(r) }
 	case 6:
-		enc = encOf(NewProphetBlock(map[EndpointID]float64{a: 0.5, b: 0.25}))
+		enc = encOrdered(func() []byte { return encOf(NewProphetBlock(map[EndpointID]float64{a: 0.5, b: 0.25})) })
 		dec = func(r *bytes.Reader) { var x ProphetBlock; _ = x.UnmarshalCbor(r) }
 	case 7:
 		enc = encOf(&SignatureBlock{PublicKey: make([]byte, 32), Signature: make([]byte, 64)})
@@ -264,4 +266,17 @@ func H04_WideHeaders() {
 	verif.Observe("in", in)
 	dec(bytes.NewReader(in))
 	verif.Reach("end")
+}
+
+// encOrdered: the encoding of a value that holds a two-entry map {a, b}, with a's entry first. The engine iterates maps
+// in insertion order, the Go runtime in a random order: the native replay encodes again until it gets the same bytes.
+func encOrdered(mk func() []byte) []byte {
+	var e []byte
+	for i := 0; i < 256; i++ {
+		e = mk()
+		if bytes.LastIndex(e, []byte("//a/")) < bytes.LastIndex(e, []byte("//b/")) {
+			break
+		}
+	}
+	return e
 }
